@@ -8,7 +8,9 @@ from spec import sizing as SZ
 from .common import *
 
 COMMON, BLOCK = "image/common.py", "image/block.py"
-TRUSTED = ["A-FLOAT: Python floats are treated as reals; round(x) is a fixed function within 1/2 of x (ties unconstrained, so ties-to-even is covered)",
+TRUSTED = ["A-FLOAT: Python floats are treated as reals; round(x) is a fixed function within 1/2 of x (ties unconstrained, so ties-to-even is covered); "
+           "int(x) of a float truncates, except that at a mathematically exact integer N it may give N or the neighbour towards zero (the "
+           "computed float may sit a hair off N) - the one place where the real-number reading would hide a float effect",
            "get_terminal_size() returns positive integers; get_cell_size() returns None or a pair of positive integers, constant during one sizing computation"]
 ASSUMPTIONS = ["A-FLOAT (IEEE-754 rounding error ignored)"]
 NOT_DECIDED = ["gap between reals and IEEE doubles (probed only by the bounded grid of the thorough tier)"]
@@ -27,6 +29,7 @@ def world(ctx, eng, fam, st):
     eng.classes.update({"BlockImage": ("TextImage",), "TextImage": ("BaseImage",), "KittyImage": ("GraphicsImage",),
                         "ITerm2Image": ("GraphicsImage",), "GraphicsImage": ("BaseImage",), "BaseImage": ()})
     eng.genv.update(UTIL_ERRS)
+    eng.float_trunc_unstable = True     # int() of a float that is mathematically an integer: that integer or its neighbour towards zero
     eng.genv["Size"] = ctx.ns("term_image.image.common").d["Size"]
     eng.classes["Size"] = ()
     eng.genv["get_terminal_size"] = Fn(lambda e, s, a, k: [(Rec("terminal_size", {"columns": tw, "lines": th}), s)])
